@@ -120,6 +120,7 @@ Print Assumptions C08_stack_relocated_a64_frame.
    and a DWARF row that compresses gives the same well-formed rule for both states *)
 Check cb_rel_none.
 Check cb_rel_macho.
+Check cb_rel_dwarf.      (* DWARF modules all of whose rows compress, in every presentation *)
 Theorem C08_compressible_row_ignores_the_stack : forall f svma first rg rg' m m',
   (forall rw, row_for_address f svma = Some rw -> translate_x86 rw <> None) ->
   exists r, with_fde rule regs row_step_x86 uncovered_rule_x86 f svma first rg m = CbRule r /\
